@@ -123,7 +123,12 @@ class ProxyCommand(ClosingContextManager):
             raise ProxyCommandFailure(" ".join(self.cmd), e.strerror)
 
     def close(self):
-        os.kill(self.process.pid, signal.SIGTERM)
+        try:
+            os.kill(self.process.pid, signal.SIGTERM)
+        except ProcessLookupError:
+            # The command already exited and was reaped (e.g. SIGCHLD is
+            # ignored): nothing left to stop, and closing must not fail.
+            pass
 
     @property
     def closed(self):
